@@ -59,7 +59,8 @@ ElapsedV2(toS, t)         == (t \div 2) >= toS
 \* Receive behaviour of the destination application encoded in the packet data / payload value:
 \* outcome ok | fail | async after WritesOf(d) application state writes (store keys and bank mints).
 \* Unknown data makes the mock applications fail without writing.
-OutcomeOf(d) == IF d \in {"ok", "ok1", "ok2"} THEN "ok"
+\* "oksent": a v2 application that reports SUCCESS but returns the universal error sentinel as its acknowledgement
+OutcomeOf(d) == IF d \in {"ok", "ok1", "ok2", "oksent"} THEN "ok"
                 ELSE IF d \in {"async", "async1", "async2"} THEN "async" ELSE "fail"
 WritesOf(d)  == IF d \in {"ok1", "fail1", "async1"} THEN 1
                 ELSE IF d \in {"ok2", "fail2", "async2"} THEN 2
@@ -252,7 +253,9 @@ DoRecvV2(S, c, a, t) ==
              fa == IF \E i \in 1..n : OutcomeOf(P.data[i]) = "async" THEN MinOf({ i \in 1..n : OutcomeOf(P.data[i]) = "async" }) ELSE 0
              c1 == [cur EXCEPT !.receipt = @ \cup {k}]
              lg == Append(S.ch[c].log, [ev |-> "recv", p |-> P, a |-> <<>>])
+             so == IF \E i \in 1..n : P.data[i] = "oksent" THEN MinOf({ i \in 1..n : P.data[i] = "oksent" }) ELSE 0
          IN IF fa # 0 /\ (ff = 0 \/ fa < ff) /\ n > 1 THEN Err(S, c, t)   \* async with several payloads
+            ELSE IF so # 0 /\ (ff = 0 \/ so < ff) THEN Err(S, c, t)       \* a successful app ack may not be the sentinel
             ELSE IF ff # 0 THEN
                  Ok(WithCur(S, c, t, [c1 EXCEPT !.ack = (k :> <<"SENTINEL">>) @@ @], lg))
             ELSE IF fa # 0 THEN
